@@ -87,11 +87,11 @@ def proj_of(st):
     return {"simple": list(st["simple"]), "kids": [sorted(k) for k in st["kids"]], "lease": [bool(x) for x in st["lease"]]}
 
 
-def run_walks(ck, binary, walks, keys, hashof, backends=BACKENDS, drv_args=(), compare_state=True, sigprefix="", realhash=False):
+def run_walks(ck, binary, walks, keys, hashof, backends=BACKENDS, drv_args=(), compare_state=True, sigprefix="", realhash=False, alphabet=None):
     cases, index = [], []
     for b in backends:
         for wi, w in enumerate(walks):
-            cases.append({"backend": b, "keys": keys, "hashof": hashof, "realhash": realhash, "ops": [e["op"] for e in w]})
+            cases.append({"backend": b, "keys": keys, "hashof": hashof, "realhash": realhash, "ops": [e["op"] for e in w], "alphabet": alphabet})
             index.append((b, wi))
     outs = ck.drive(binary, list(drv_args), input_lines=cases, timeout=1500)
     byi = {o["i"]: o["o"] for o in outs}
